@@ -1557,6 +1557,26 @@ def table_hdr_cell_fn(ctx: "Wtp", token: str) -> None:
     ):
         return text_fn(ctx, token)
 
+    # Where the token is only text (inside a data cell, a nested element, a
+    # call or a link) it must not close bold or italics that are open there:
+    # decide on the innermost node that is not inline formatting.
+    for node in reversed(ctx.parser_stack):
+        if node.kind not in (NodeKind.ITALIC, NodeKind.BOLD):
+            break
+    if node.kind in (
+        NodeKind.HTML,
+        NodeKind.TEMPLATE,
+        NodeKind.PARSER_FN,
+        NodeKind.TEMPLATE_ARG,
+        NodeKind.LINK,
+        NodeKind.URL,
+    ) or (
+        node.kind == NodeKind.TABLE_CELL
+        and not (ctx.beginning_of_line and ctx.begline_enabled)
+        and not ctx.wsp_beginning_of_line
+    ):
+        return text_fn(ctx, token)
+
     while True:
         node = ctx.parser_stack[-1]
         if node.kind == NodeKind.TABLE_ROW:
